@@ -180,7 +180,14 @@ where
     fn format_response_data(&self, formatter: &mut dyn Formatter) -> Result<()> {
         let mnemonic = self.mnemonic();
         let short_form = mnemonic.split(|c| !c.is_ascii_uppercase()).next().unwrap();
-        formatter.push_str(short_form)
+        formatter.push_str(short_form)?;
+        // Keep the numeric suffix, `CHANnel2` must not read back as `CHANnel[1]`
+        let digits = mnemonic
+            .iter()
+            .rev()
+            .take_while(|c| c.is_ascii_digit())
+            .count();
+        formatter.push_str(&mnemonic[mnemonic.len() - digits..])
     }
 }
 
